@@ -45,7 +45,11 @@ MANIFEST = dict(
          "complete. Shutdown.tla composes main/engine/pool/await/instances/aggregator/Exit with signals at every "
          "position (before signal.Notify, first, second, untrapped), the interrupt / tasks timers, slow or blocking sinks "
          "and instances parked in a blocking Report: an exit may lack data ONLY after one of four forced causes "
-         "(ExitComplete with the exact Exempt set), every exit invents nothing, a stopped process ends (liveness). The "
+         "(ExitComplete with the exact Exempt set), every exit invents nothing, a stopped process ends (liveness); of "
+         "those a timer excuses missing data only when the sink blocks: with shots that hang past the interrupt timeout "
+         "the aggregator - stopped by the run cancel itself, not by the end of the instances - has flushed and closed "
+         "(TimeoutExitFlushed; bound by engine runs whose guns do not come back and by processes whose target stops "
+         "answering before SIGTERM). The "
          "real code answers to the same operators (spec/Phout.tla): every line the real aggregators hand to their sink "
          "must be PhoutLine(s) / decode to s of a not yet written report (tags with TAB/LF/CR as TagText says), the "
          "counts must add up at Run return, a failing recording sink must make Run fail, and real processes stopped by "
